@@ -126,6 +126,15 @@ def run(tier, replay=None):
             for prefill in (0, 1, 2):
                 scns.append(igz.scenario(len(scns), "deflate", inp, level=level, wrap=[0, 1, 3][k % 3], lbuf=[0, 3][k % 2], mem=prefill, prefill=prefill, calls=calls, tail_ai=200, tail_ao=300, meta={"group": k}))
             k += 1
+    # ... and of the OUTPUT buffer: one-shot and streaming compression into zero-filled, 0xFF-filled and random-filled output memory; inputs include
+    # the long 0x00 / 0xFF runs that the one-shot path encodes by a dedicated routine (every length class of its run-length arithmetic)
+    runs = [[0] * n for n in (1033, 2065, 4096, 5000, 20000)] + [[255] * n for n in (1300, 4097, 9000)] + [[0] * 4200 + igz.corpus(rng, "text", 300), [255] * 6000 + igz.corpus(rng, "random", 100)]
+    for inp in runs + [igz.corpus(rng, "text", 3000), igz.corpus(rng, "random", 700)]:
+        for level in range(4):
+            for api, calls in (("deflate_stateless", [[len(inp), len(inp) + 1000, 0, 1]]), ("deflate", [[len(inp), 77, [0, 1, 2][k % 3], 1]] + [[0, 77, 0, 1]] * 400)):
+                for prefill in (0, 1, 2):
+                    scns.append(igz.scenario(len(scns), api, inp, level=level, wrap=[0, 1, 3][k % 3], lbuf=[0, 3][k % 2], mem=0, prefill=prefill + 256, calls=calls, tail_ai=0, tail_ao=77, cap=2000, meta={"group": k}))
+                k += 1
     tf = igz.run_harness(scns, wd, "prefill")
     recs, summ, by = igz.merge(scns, tf)
     def obsv(i): return [x for c in by[i]["calls"] for x in ([c["ret"], c["c"], c["p"]] + c["out"])]
